@@ -90,6 +90,11 @@ def gen_configs(ctx):
                             "emptyargs": {"args": [], "env": {"A": "b c"}, "timeout": "__absent__", "extra": None, "spaced": True},
                             "someargs": {"args": ["--db", "my file.db"], "env": {}, "timeout": 5, "extra": None, "spaced": True}},
                 "top_extra": None})
+    # a UTF-8 file (JSON is UTF-8) read by a process whose locale encoding is not: the requested entry itself is plain
+    # ASCII, the non-ASCII text sits in a comment member and in an entry that is never asked for
+    out.append({"servers": {"plain": {"args": ["--x", "y z"], "env": {"A": "b"}, "timeout": 5, "extra": {"description": "Gr\u00fc\u00dfe \u2713 \u65e5\u672c"}},
+                            "never-asked-for": {"args": ["\u00fc"], "env": {}, "timeout": 5, "extra": None}},
+                "top_extra": {"comment": "\u00e9t\u00e9 \U0001f600"}, "locale_c": True, "only": ["plain"]})
     return out
 
 
@@ -251,8 +256,10 @@ def parent_env() -> Dict[str, str]:
     return env
 
 
-def run_entry(mode: str, cfg_path: str, names: List[str], tmp: str) -> Dict[str, Any]:
+def run_entry(mode: str, cfg_path: str, names: List[str], tmp: str, locale_c: bool = False) -> Dict[str, Any]:
     env = parent_env()
+    if locale_c:
+        env.update({"LC_ALL": "C", "LANG": "C", "PYTHONUTF8": "0", "PYTHONCOERCECLOCALE": "0", "PYTHONIOENCODING": "utf-8"})
     if os.path.isdir(os.path.join(tmp, "hostbin")):
         env["PATH"] = os.path.join(tmp, "hostbin") + ":" + env.get("PATH", "/usr/bin:/bin")
     if mode == "cli":
@@ -283,7 +290,7 @@ def one_case(cfg: Dict[str, Any], mode: str, names: List[str]) -> Dict[str, Any]
     tmp = tempfile.mkdtemp(prefix="vf_c20_")
     try:
         m = materialise(tmp, cfg)
-        o = run_entry(mode, m["path"], names, tmp)
+        o = run_entry(mode, m["path"], names, tmp, locale_c=bool(cfg.get("locale_c")))
         o["launches"] = {n: launches(e["witness"]) for n, e in m["expect"].items()}
         o["decoy_launches"] = {n: launches(e["decoy"]) for n, e in m["expect"].items() if e.get("decoy")}
         o["expect"] = m["expect"]
@@ -455,6 +462,10 @@ def run(ctx):
     cfgs = gen_configs(ctx)
     jobs = []
     for i, cfg in enumerate(cfgs):
+        if cfg.get("only"):
+            for mode in ("loader", "runner", "cli"):
+                jobs.append(({"cfg": cfg, "mode": mode, "names": cfg["only"]}, cfg, mode, cfg["only"]))
+            continue
         names = list(cfg["servers"])
         rng = ctx.sub_rng("pick", i)
         one = [rng.choice(names)]
